@@ -904,6 +904,14 @@ def _case_history(run, rng, quick, case_seed, icase):
             B = _random_state(rng, ctx, bool(rng.random() < 0.3), qntot=[int(x) for x in cur.qntot], max_bond=2)
             if B is None:
                 continue
+            if n_nodes == 1:
+                # one-node tree: checked under its own signature, the history goes on without it
+                bt = L.build_ttns(tree, spec, B["tensors"], B["qns"])
+                ok, r = case.call("add", "single-node-tree", lambda: cur.add(bt))
+                if ok:
+                    case.close("add", "single-node-tree", L.dense_of_ttns(r, [bl[b] for b in ctx["phys"]]),
+                               psi + B["psi"], TOL_RING * max(1.0, np.abs(psi).max()))
+                continue
             hist.append(dict(op="add", tensors=B["tensors"], qns=B["qns"]))
             bt = L.build_ttns(tree, spec, B["tensors"], B["qns"])
             if rng.random() < 0.5:
